@@ -10,6 +10,8 @@
 //! reopen), every per-stream filter is 0,1,2,.., and the setup log is a byte prefix of the final log.
 #[path = "../contlib/mod.rs"]
 mod contlib;
+#[path = "c01/seqcount.rs"]
+mod seqcount;
 use contlib::*;
 use ripd::*;
 use rv::sched::Sched;
@@ -980,13 +982,7 @@ fn router_mix(ctx: &mut Ctx, seed: u64) {
 /// counter threaded through the provider pipe and the tool runner): oracle only - every stream of the
 /// final log is 0,1,2,.. in file order.
 fn session_case(ctx: &mut Ctx, wsg: &mut CaseWriter, variant: usize) {
-    use rv::provider::{sse_event, Scripted, ScriptedProvider, SSE_DONE};
-    let scratch = Scratch::new("c01r");
-    let data_dir = scratch.path().join("data");
-    let ws = scratch.path().join("ws");
-    std::fs::create_dir_all(&data_dir).unwrap();
-    std::fs::create_dir_all(&ws).unwrap();
-    let _ = std::fs::write(ws.join("a.txt"), b"hello\n");
+    use rv::provider::{sse_event, Scripted, SSE_DONE};
     let ev = |name: &str, v: serde_json::Value| sse_event(name, &v);
     let created = |r: &str| ev("response.created", json!({"type": "response.created", "sequence_number": 0, "response": {"id": r}}));
     let completed = |r: &str, n: u64| ev("response.completed", json!({"type": "response.completed", "sequence_number": n, "response": {"id": r}}));
@@ -1015,6 +1011,20 @@ fn session_case(ctx: &mut Ctx, wsg: &mut CaseWriter, variant: usize) {
         // provider answers 500: transport-error frame, then the closing frames
         _ => (vec![Scripted::http_error(500, "boom")], false, T::auto(), "http_500"),
     };
+    run_scripted_session(ctx, wsg, label, script, stateless, choice, json!({"session_script": label}), 50);
+}
+
+/// one prompt session through the real engine (SessionEngine::spawn_session) against a local provider that
+/// answers request k with script[k]; oracle: every stream of the log is 0,1,2,.. in file order and a
+/// validated replay of a fresh EventLog succeeds; the session's stream is compared with the model's session actor
+fn run_scripted_session(ctx: &mut Ctx, wsg: &mut CaseWriter, label: &str, script: Vec<rv::provider::Scripted>, stateless: bool, choice: rip_provider_openresponses::ToolChoiceParam, replay: serde_json::Value, poll_ms: u64) {
+    use rv::provider::ScriptedProvider;
+    let scratch = Scratch::new("c01r");
+    let data_dir = scratch.path().join("data");
+    let ws = scratch.path().join("ws");
+    std::fs::create_dir_all(&data_dir).unwrap();
+    std::fs::create_dir_all(&ws).unwrap();
+    let _ = std::fs::write(ws.join("a.txt"), b"hello\n");
     let provider = ScriptedProvider::start(script);
     let cfg = ripd::verif::OpenResponsesConfig {
         endpoint: provider.url.clone(),
@@ -1036,13 +1046,13 @@ fn session_case(ctx: &mut Ctx, wsg: &mut CaseWriter, variant: usize) {
         let handle = engine.create_session();
         let sid = handle.session_id.clone();
         engine.spawn_session(handle, "do it".to_string(), None, Some(cfg));
-        for _ in 0..1200 {
-            tokio::time::sleep(Duration::from_millis(50)).await;
+        for _ in 0..(60_000 / poll_ms.max(1)) {
+            tokio::time::sleep(Duration::from_millis(poll_ms)).await;
             let bytes = std::fs::read(&log_path).unwrap_or_default();
             let cut = bytes.iter().rposition(|b| *b == b'\n').map(|i| i + 1).unwrap_or(0);
             if let Ok(hs) = parse_log(&bytes[..cut]) {
                 if hs.iter().any(|h| h.sid == sid && matches!(h.ev.kind, rip_kernel::EventKind::SessionEnded { .. })) {
-                    tokio::time::sleep(Duration::from_millis(150)).await;
+                    tokio::time::sleep(Duration::from_millis(poll_ms * 3)).await;
                     return true;
                 }
             }
@@ -1059,7 +1069,7 @@ fn session_case(ctx: &mut Ctx, wsg: &mut CaseWriter, variant: usize) {
     let bytes = std::fs::read(&log_path).unwrap_or_default();
     let cut = bytes.iter().rposition(|b| *b == b'\n').map(|i| i + 1).unwrap_or(0);
     match parse_log(&bytes[..cut]) {
-        Err(e) => ctx.res.oracle_violations.push(OracleViolation { case_id: -1, what: format!("session script {label}: {e}"), class: "partial_frame".into(), replay: json!({"session_script": label}) }),
+        Err(e) => ctx.res.oracle_violations.push(OracleViolation { case_id: -1, what: format!("session script {label}: {e}"), class: "partial_frame".into(), replay: replay.clone() }),
         Ok(hs) => {
             ctx.res.bump_by("session_script_frames", hs.len() as u64);
             // the run's stream against the session actor of the model (MSessEmit: frame at the run-local
@@ -1077,10 +1087,18 @@ fn session_case(ctx: &mut Ctx, wsg: &mut CaseWriter, variant: usize) {
                     stream.iter().map(|h| coq_etype(h.code)).collect::<Vec<_>>().join("; "),
                     coq_list_n(&obs)
                 ));
-                ctx.res.case_index.insert(id.to_string(), json!({"session_script": label}));
+                ctx.res.case_index.insert(id.to_string(), replay.clone());
             }
-            if let Some(v) = first_order_violation(&hs) {
-                ctx.res.oracle_violations.push(OracleViolation { case_id: -1, what: format!("session script {label}: {v}"), class: "session_stream_file_order".into(), replay: json!({"session_script": label}) });
+            let validated = rip_log::EventLog::new(log_path.clone()).and_then(|l| l.replay_validated()).map(|_| ()).map_err(|e| e.to_string());
+            let what = match (first_order_violation(&hs), validated) {
+                (Some(v), _) => Some(format!("session script {label}: {v}")),
+                (None, Err(e)) => Some(format!("session script {label}: validated replay of the log fails: {e}")),
+                _ => None,
+            };
+            if let Some(what) = what {
+                if ctx.res.oracle_violations.len() < 20 {
+                    ctx.res.oracle_violations.push(OracleViolation { case_id: -1, what, class: "session_stream_file_order".into(), replay: replay.clone() });
+                }
                 ctx.res.bump("violation=session_stream_file_order");
             }
         }
@@ -1696,8 +1714,10 @@ fn main() {
 
     // `--only crash` (self-tests): nothing but the crash-image group
     let only_crash = a.extra.get("only").map(|v| v == "crash").unwrap_or(false);
+    // `--only seq` (self-tests): nothing but the counter-vs-frames groups (provider pipe, refused log writes)
+    let only_seq = a.extra.get("only").map(|v| v == "seq").unwrap_or(false);
     'pre: {
-    if only_crash {
+    if only_crash || only_seq {
         break 'pre;
     }
     // ---- corpus: S3 (stale prefix + restart)
@@ -1752,6 +1772,21 @@ fn main() {
     }
 
     }
+    // ---- the counter and the frames in the log (Model/SeqCount.v): the provider pipe borrowing the run-local
+    // counter, and log writes that fail at every continuity writer while the authority keeps running
+    let mut wsg = CaseWriter::new(&a.out.join("sg"), "Model.Frames Model.Log Model.ContStore Model.SessGuard", "check_case_sg", "model_obs_sg", 40).with_base(1_000_000);
+    let mut wpc = CaseWriter::new(&a.out.join("pc"), "Model.Frames Model.Log Model.ContStore Model.SessGuard Model.SeqCount", "check_case_pc", "model_obs_pc", 40).with_base(3_000_000);
+    let mut waf = CaseWriter::new(&a.out.join("af"), "Model.Frames Model.Log Model.ContStore Model.SessGuard Model.SeqCount", "check_case_af", "model_obs_af", 40).with_base(4_000_000);
+    if !only_crash {
+        let mut r2 = Rng::new(a.seed ^ 0x5e9c_0417);
+        seqcount::pipe_threaded(&mut ctx, &mut wpc, &mut r2, if thorough { 1500 } else { 150 });
+        seqcount::grammar_sessions(&mut ctx, &mut wsg, &mut r2, if thorough { 120 } else { 20 });
+        seqcount::append_failures(&mut ctx, &mut waf, &mut r2, thorough);
+    }
+    if only_seq {
+        ctx.deadline = std::time::Instant::now();
+    }
+
     // ---- the authority dies at a point of a schedule (every coarse step of a few cases, sampled ones of random cases)
     {
         let cases = vec![
@@ -1855,7 +1890,6 @@ fn main() {
     }
 
     // ---- run (session) streams driven by provider scripts, incl. requests that fail local validation
-    let mut wsg = CaseWriter::new(&a.out.join("sg"), "Model.Frames Model.Log Model.ContStore Model.SessGuard", "check_case_sg", "model_obs_sg", 40).with_base(1_000_000);
     for v in 0..9 {
         if !ctx.stop() {
             session_case(&mut ctx, &mut wsg, v);
@@ -1924,8 +1958,10 @@ fn main() {
     ctx.w.flush();
     ctx.wmx.flush();
     wsg.flush();
+    wpc.flush();
+    waf.flush();
     ctx.res.distinct_nontrivial = ctx.distinct.count();
-    ctx.res.case_files = ctx.w.files.iter().chain(ctx.wmx.files.iter()).chain(wsg.files.iter()).map(|p| p.display().to_string()).collect();
+    ctx.res.case_files = ctx.w.files.iter().chain(ctx.wmx.files.iter()).chain(wsg.files.iter()).chain(wpc.files.iter()).chain(waf.files.iter()).map(|p| p.display().to_string()).collect();
     ctx.res.write(&a.out);
     println!("c01: {} schedules, {} oracle violations", ctx.leaves, ctx.res.oracle_violations.len());
 }
